@@ -48,11 +48,11 @@ def worker(i, jobs, results, tier, lock):
             patch, checks = jobs.get_nowait()
         except queue.Empty:
             break
-        sh('git -C %s checkout -q -- . && git -C %s clean -fdq -e target' % (repo, repo))
+        sh('git -C %s reset -q --hard HEAD && git -C %s clean -fdq -e target' % (repo, repo))
         rec = {'patch': patch, 'checks': {}}
         if patch != '-':
             r = sh('git -C %s apply %s || git -C %s apply --3way %s' % (repo, patch, repo, patch))
-            if r.returncode != 0:
+            if r.returncode != 0 or sh('git -C %s diff --name-only --diff-filter=U' % repo).stdout.strip():
                 rec['error'] = 'patch does not apply: ' + r.stdout[-300:]
                 with lock:
                     results.append(rec)
